@@ -92,7 +92,8 @@ var c04Pools = map[string]pool{
 	"Int64": {
 		good:   []hx.Val{hx.I64(1 << 40), hx.I64(math.MaxInt64), hx.I64(math.MinInt64), hx.I64(0), hx.I64(-5)},
 		bad:    []hx.Val{hx.Bool(true), hx.F64(1.5), hx.Str("abc")},
-		either: []hx.Val{hx.Str("12")},
+		// (a string of digits: if it is taken at all, it is read as the decimal number it spells)
+		either: []hx.Val{hx.Str("12"), hx.Str("0123"), hx.Str("-010"), hx.Str("0100"), hx.Str("9223372036854775807"), hx.Str("0x10")},
 	},
 	"String":  {good: []hx.Val{hx.Str(""), hx.Str("héllo"), hx.Str("RED"), hx.Str("line\nbreak \"q\" \\"), hx.Str("3")}, bad: []hx.Val{hx.I64(3), hx.Bool(true), hx.F64(1.5), hx.Sym("RED")}},
 	"ID":      {good: []hx.Val{hx.Str("x"), hx.Str(""), hx.I64(7), hx.I64(-12)}, bad: []hx.Val{hx.F64(1.5), hx.Bool(true), hx.Sym("RED")}},
